@@ -49,6 +49,24 @@ Theorem C13_avar_knots : forall maps f t,
 Proof. exact avar_knot_result. Qed.
 Print Assumptions C13_avar_knots.
 
+(* monotone non-decreasing in the user coordinate THROUGH avar, when the avar map is monotone:
+   strictly sorted knots from -1 to +1 with non-decreasing targets *)
+Theorem C13_monotone_through_avar : forall minv def maxv maps x y, minv <= def <= maxv -> x <= y ->
+  map_ok maps -> targets_mono maps -> (1 <= length maps)%nat ->
+  fst (hd (0, 0) maps) = -16384 -> fst (last maps (0, 0)) = 16384 ->
+  normalize_axis (minv, def, maxv) x (Some maps) <= normalize_axis (minv, def, maxv) y (Some maps).
+Proof. exact normalize_axis_avar_mono. Qed.
+Print Assumptions C13_monotone_through_avar.
+
+(* inside a segment the avar value is exactly start + floor(q * rise / 1.0) with q the truncated
+   16.16 ratio: the "slope times intermediate rounding" accuracy clause of the property *)
+Theorem C13_avar_segment_exact : forall s e x, i16_pair s -> i16_pair e -> fst s < fst e -> snd s <= snd e ->
+  fst s * 4 <= x < fst e * 4 ->
+  let q := (x - fst s * 4) * 65536 / ((fst e - fst s) * 4) in
+  0 <= q < 65536 /\ interp s e x = snd s * 4 + q * ((snd e - snd s) * 4) / 65536.
+Proof. exact interp_exact. Qed.
+Print Assumptions C13_avar_segment_exact.
+
 (* a tuple of the wrong length is rejected *)
 Theorem C13_tuple_len_rejected : forall axes coords avar,
   length coords <> length axes -> fvar_normalize axes coords avar = Err BadValue.
